@@ -39,7 +39,8 @@ Inductive hdr :=
 (** which decoder to run *)
 Inductive lay :=
 | LHop | LInfo | LMeta | LRaw | LDec | LOneHop | LEpic | LEmpty | LScion | LUdp | LScmp
-| LFmt (id : N) | LExt (k : kind) | LSpao | LAddr.
+| LFmt (id : N) | LExt (k : kind) | LSpao | LAddr
+| LScionR.    (* SCION.DecodeFromBytes on a layer with RecyclePaths() *)
 
 (** the SCMP message structs of scmp_msg.go (and the base header) by number *)
 Definition fmt_of (id : N) : fmt :=
@@ -76,6 +77,7 @@ Definition decode (l : lay) (bs : bytes) : res (hdr * bytes) :=
   | LEpic => lift HEpic (epic_decode bs)
   | LEmpty => '(_, r) <- empty_decode bs ;; Ok (HEmpty, r)
   | LScion => lift HScion (scion_decode bs)
+  | LScionR => lift HScion (scion_decode_r bs)
   | LUdp => '(v, p, _) <- udp_decode bs ;; Ok (HUdp v, p)
   | LScmp => '(b, m, r) <- scmp_decode bs ;; Ok (HScmp b m, r)
   | LFmt id => lift (HFmt id) (fmt_decode (fmt_of id) bs)
@@ -114,7 +116,7 @@ Definition canon (fx : bool) (aux : N) (h : hdr) : hdr :=
   match h with
   | HRaw x => HRaw (raw_canon x)
   | HEpic e => HEpic (mkEpic (ep_ts e) (ep_ctr e) (ep_phvf e) (ep_lhvf e) (raw_canon (ep_scion e)))
-  | HScion x => HScion (scion_canon fx aux x)
+  | HScion x => HScion (scion_canon fx aux (scion_undecoded x))   (* a decoded path comes back raw *)
   | HUdp v => HUdp (if fx then udp_fix (aux + 8) v else v)
   | HExt k e => HExt k (ext_canon fx e)
   | _ => h
@@ -130,10 +132,12 @@ Definition wfb (fx : bool) (aux : N) (h : hdr) : bool :=
   | HOneHop x => wf_onehopb x
   | HEpic x => wf_epicb x
   | HEmpty => true
-  | HScion x =>
-    if fx then wf_scion_nolenb x && Nat.leb (scn_len x) max_hdr_len &&
+  | HScion x0 =>
+    let x := scion_undecoded x0 in
+    (if fx then wf_scion_nolenb x && Nat.leb (scn_len x) max_hdr_len &&
                Nat.eqb (Nat.modulo (scn_len x) line_len) 0
-    else wf_scionb x
+    else wf_scionb x) && negb (is_opaque (s_path x)) &&
+    match s_path x0 with PDecoded d => wf_decb d | _ => true end
   | HUdp v => wf_valsb udp_fmt v &&
               (fx || (nth 2 v 0 =? 0) || (nth 2 v 0 =? aux + 8))
   | HScmp b m => wf_valsb scmp_base_fmt b &&
@@ -162,7 +166,7 @@ Definition mask (l : lay) (bs : bytes) : bytes :=
   | LOneHop => mask_onehop bs
   | LEpic => mask_epic bs
   | LEmpty => bs
-  | LScion => mask_scion bs
+  | LScion | LScionR => mask_scion bs
   | LUdp => udp_covered bs
   | LScmp => scmp_mask bs
   | LFmt id => fmt_mask (fmt_of id) bs
@@ -174,7 +178,7 @@ Definition mask (l : lay) (bs : bytes) : bytes :=
 (** a length field of the layer announces more bytes than the data holds *)
 Definition overlong (l : lay) (bs : bytes) : bool :=
   match l with
-  | LScion => scion_overlong bs
+  | LScion | LScionR => scion_overlong bs
   | LUdp => udp_overlong bs
   | LExt _ => ext_overlong bs
   | LRaw | LDec =>
@@ -239,6 +243,10 @@ Definition known (l : lay) (bs : bytes) : bool :=
               | Ok (h, _) => negb (Nat.eqb (scion_slack h) 0)
               | _ => false
               end
+  | LScionR => match scion_decode_r bs with
+               | Ok (h, _) => negb (Nat.eqb (scion_slack h) 0)
+               | _ => false
+               end
   | _ => false
   end.
 
